@@ -1,4 +1,4 @@
-(* Agreement with YAML for texts whose line breaks are CR LF or CR. *)
+(* Agreement with YAML for texts whose line breaks are CR LF, CR or NEL. *)
 From Coq Require Import List NArith Bool.
 From MV Require Import Base.PyStr.
 From MV Require Import Base.Res.
@@ -12,11 +12,25 @@ Import ListNotations.
 Open Scope N_scope.
 
 Theorem line_breaks_transparent (T : str) r : no_cr T = true -> options_to_items T = Ok r ->
-  options_to_items (crlf T) = Ok r /\ options_to_items (cr_only T) = Ok r.
-Proof. intros H1 H2. split; [apply crlf_transparent | apply cr_transparent]; assumption. Qed.
+  options_to_items (crlf T) = Ok r /\ options_to_items (cr_only T) = Ok r /\ options_to_items (nel_only T) = Ok r.
+Proof. intros H1 H2. split; [|split]; [apply crlf_transparent | apply cr_transparent | apply nel_transparent]; assumption. Qed.
 
 Theorem yaml_agree_crlf b : wf_block b = true -> options_to_items (crlf (print_block b)) = Ok (meaning_block b).
 Proof. intros H. apply crlf_transparent; [apply print_block_no_cr; exact H | apply yaml_agree; exact H]. Qed.
 
 Theorem yaml_agree_cr b : wf_block b = true -> options_to_items (cr_only (print_block b)) = Ok (meaning_block b).
 Proof. intros H. apply cr_transparent; [apply print_block_no_cr; exact H | apply yaml_agree; exact H]. Qed.
+
+Theorem yaml_agree_nel b : wf_block b = true -> options_to_items (nel_only (print_block b)) = Ok (meaning_block b).
+Proof. intros H. apply nel_transparent; [apply print_block_no_cr; exact H | apply yaml_agree; exact H]. Qed.
+
+(* Different kinds in ONE text do not compose in general: a CR directly followed by an LF is one
+   line break (CR LF), so replacing the first of two consecutive line feeds by CR and keeping the
+   second loses a blank line.  a: |  /  x  /  (blank)  /  y *)
+Definition mixed_lf : str := [97; 58; 32; 124; 10; 32; 120; 10; 10; 32; 121; 10].
+Definition mixed_cr_lf : str := [97; 58; 32; 124; 10; 32; 120; 13; 10; 32; 121; 10].
+
+Theorem mixed_breaks_refuted :
+  options_to_items mixed_lf = Ok [([97], [120; 10; 10; 121; 10])] /\
+  options_to_items mixed_cr_lf = Ok [([97], [120; 10; 121; 10])].
+Proof. split; vm_compute; reflexivity. Qed.
